@@ -8,6 +8,7 @@
 package main
 
 import (
+	"encoding/json"
 	"fmt"
 	"os"
 	"runtime/debug"
@@ -66,6 +67,22 @@ func main() {
 	if s := os.Getenv("VERIF_SEED"); s != "" {
 		if v, err := strconv.ParseInt(s, 10, 64); err == nil {
 			seed = uint64(v)
+		}
+	}
+	if replay != "" { // a replay file records the seed and tier of the run that wrote it
+		if b, err := os.ReadFile(replay); err == nil {
+			var rec struct {
+				Seed uint64 `json:"seed"`
+				Tier string `json:"tier"`
+			}
+			if json.Unmarshal(b, &rec) == nil {
+				if rec.Seed != 0 {
+					seed = rec.Seed
+				}
+				if rec.Tier == "quick" || rec.Tier == "thorough" {
+					tier = rec.Tier
+				}
+			}
 		}
 	}
 	fn, ok := checks[prop]
